@@ -328,25 +328,46 @@ func exploreUnit(c *core.Ctx, desc []string, bound int, spread bool) {
 		c.R.NotDone("harnesses %s need the seams into private functions of package qr, which do not compile against the current sources (stub in use); the whole-call harnesses S3d/S3e cover the same pipelines from outside", desc[0])
 		return
 	}
+	cs0 := &core.Case{Fam: "sched", Ops: desc}
+	c.Begin(cs0) // building the harness runs the calls once for reference: a call that never returns is caught by the watchdog
 	h, err := schedHarness(desc)
+	c.End()
 	if err != nil {
-		c.Fail("C16", &core.Case{Fam: "sched", Ops: desc}, "cannot build harness: %v", err)
+		c.Fail("C16", cs0, "cannot build harness: %v", err)
 		return
 	}
-	cs0 := &core.Case{Fam: "sched", Ops: desc}
 	h.OnSchedule = func() { c.Begin(cs0) }         // the hang watchdog watches single executions
 	h.StateKeys = strings.HasPrefix(desc[0], "S3") // single-call pipelines interact only through hooked channel operations
+	// the group-level reduction of the cross-call harnesses assumes that the calls share no channel; if
+	// the current sources make them share one (a process-wide semaphore or queue), the harness is explored
+	// at thread level instead (every enabled thread at every point), within the unit budget
+	premiseBroken := func(msg string) bool {
+		return h.Policy == sched.GroupLevel && strings.Contains(msg, "premise of the group-level reduction")
+	}
+	budget := pick(c, 60, 1500) // seconds per unit
+	toThreadLevel := func() {
+		h.Policy = sched.ThreadLevel
+		budget = pick(c, 15, 120)
+		c.R.NotDone("harnesses %s: concurrent calls share a channel, so the group-level reduction does not apply; explored at thread level within the unit budget", desc[0])
+	}
 	// determinism proof on the default schedule
 	if _, _, err := sched.Replay(h, nil); err != nil {
-		fmt.Fprintf(os.Stderr, "CHECK-BROKEN: harness %v: %v\n", desc, err)
-		os.Exit(2)
+		if premiseBroken(err.Error()) {
+			toThreadLevel()
+			_, _, err = sched.Replay(h, nil)
+		}
+		if err != nil {
+			fmt.Fprintf(os.Stderr, "CHECK-BROKEN: harness %v: %v\n", desc, err)
+			os.Exit(2)
+		}
 	}
+	var st sched.Stats
+retry:
 	// per-unit budget: a unit that does not finish within it is reported as incomplete (never an alarm)
-	unitDeadline := time.Now().Add(time.Duration(pick(c, 60, 1500)) * time.Second)
+	unitDeadline := time.Now().Add(time.Duration(budget) * time.Second)
 	if !c.Deadline.IsZero() && c.Deadline.Before(unitDeadline) {
 		unitDeadline = c.Deadline
 	}
-	var st sched.Stats
 	lo := 0
 	if bound < 0 {
 		// unbounded: first the schedules with <= 1 preemption (shortest counterexamples), then everything
@@ -369,6 +390,10 @@ func exploreUnit(c *core.Ctx, desc []string, bound int, spread bool) {
 		if st.Violation != nil || st.HardError != "" || !st.Complete || !st.Cut {
 			break // !Cut: the bound did not exclude anything, i.e. every schedule was explored
 		}
+	}
+	if st.HardError != "" && premiseBroken(st.HardError) {
+		toThreadLevel()
+		goto retry
 	}
 	c.End()
 	if st.HardError != "" {
@@ -436,7 +461,9 @@ func racePass(c *core.Ctx) {
 				}
 				cs := &core.Case{Fam: "race", Ops: []string{mode}, P: []int{g, p}}
 				c.Begin(cs)
-				args := []string{"-mode", mode, "-goroutines", strconv.Itoa(g)}
+				// deadlock timer: ten times what the sequential GOMAXPROCS=1 baseline of this mode took just now
+				// (under the same machine load) plus half a minute, at least 45 s; 60 s if the baseline itself hung
+				args := []string{"-mode", mode, "-goroutines", strconv.Itoa(g), "-timeout", strconv.Itoa(raceLimit(mode))}
 				if baseFile[mode] != "" {
 					args = append(args, "-baseline", baseFile[mode])
 				}
@@ -448,8 +475,8 @@ func racePass(c *core.Ctx) {
 				c.R.Count("race.runs", 1)
 				if err != nil {
 					c.Fail("C16", cs, "free-running pass (%s, %d goroutines, GOMAXPROCS=%d, -race) failed: %v\n%s", mode, g, p, err, firstLines(string(out), 40))
-					if failures++; failures >= 3 {
-						c.R.NotDone("S4: stopped after three failing configurations in this shard")
+					if failures++; failures >= 3 || strings.Contains(string(out), "did not return within") {
+						c.R.NotDone("S4: stopped after %d failing configuration(s) in this shard (a configuration that does not return costs its whole timer)", failures)
 						return
 					}
 				}
@@ -467,13 +494,26 @@ func firstLines(s string, n int) string {
 }
 
 // race: replay of one free-running configuration.
+// raceLimit is the deadlock timer of one race-pass configuration in seconds (see racePass).
+func raceLimit(mode string) int {
+	limit := 60
+	if b, err := os.ReadFile(fmt.Sprintf("%s/racebase.%s.time", os.Getenv("VERIF_RACEBASE"), mode)); err == nil {
+		if t, err := strconv.Atoi(strings.TrimSpace(string(b))); err == nil {
+			if limit = 10*t + 30; limit < 45 {
+				limit = 45
+			}
+		}
+	}
+	return limit
+}
+
 func evalRace(c *core.Ctx, cs *core.Case) {
 	bin := os.Getenv("VERIF_RACEBIN")
 	if bin == "" {
 		return
 	}
 	f := fmt.Sprintf("%s/racebase.%s.json", os.Getenv("VERIF_RACEBASE"), cs.Ops[0])
-	cmd := exec.Command(bin, "-mode", cs.Ops[0], "-goroutines", strconv.Itoa(cs.P[0]), "-baseline", f)
+	cmd := exec.Command(bin, "-mode", cs.Ops[0], "-goroutines", strconv.Itoa(cs.P[0]), "-baseline", f, "-timeout", strconv.Itoa(raceLimit(cs.Ops[0])))
 	cmd.Env = append(os.Environ(), "GOMAXPROCS="+strconv.Itoa(cs.P[1]), "GORACE=halt_on_error=0 exitcode=66")
 	if out, err := cmd.CombinedOutput(); err != nil {
 		c.Fail("C16", cs, "free-running pass failed: %v\n%s", err, firstLines(string(out), 40))
